@@ -30,7 +30,7 @@ type c15In struct {
 	Pip     *c14In      `json:"pip,omitempty"` // shape 3: holders are pipeline tasks whose lock maps come from the pip:run command line
 }
 
-var c15Names = []string{"db", "dbx", "net", "x"} // "dbx" extends "db": names must be matched exactly
+var c15Names = []string{"db", "dbx", "net", "x", "DB"} // "dbx" extends "db", "DB" differs by case: names must be matched exactly
 
 func c15Map(r *Rand) map[string]bool {
 	m := map[string]bool{}
@@ -354,7 +354,7 @@ func init() {
 		New:    func() interface{} { return &c15In{} },
 		Run:    c15Run,
 		Shrink: c15Shrink,
-		Rule: "one case = (2-6 holders, lock maps over 4 resource names incl. empty and full, hold times) x one seeded schedule, or one independence probe (A parked inside, compatible B must enter; three-party variant), or the pipeline shape (2-3 runner tasks whose nested pip:run tasks name one resource with --wlock / --rlock / both: writers never overlap); " +
+		Rule: "one case = (2-6 holders, lock maps over 5 resource names (one a prefix of another, two differing by case) incl. empty and full, hold times) x one seeded schedule, or one independence probe (A parked inside, compatible B must enter; three-party variant), or the pipeline shape (2-3 runner tasks whose nested pip:run tasks name one resource with --wlock / --rlock / both: writers never overlap); " +
 			"the order in which the shared mutex walks a lock map is itself a seeded choice; non-trivial = a scheduling decision with more than one runnable task; distinct = distinct (input, decision sequence)",
 		Real: []string{"app/modules/commonm/commservices/mutex (SharedMutex, unlock handler)", "pipeline shape: the whole application of C14 (pip:run command line -> lock map -> runner -> SharedMutex)"},
 		Stub: []string{"sync.RWMutex -> simrt.RWMutex (writer preference as in Go)", "scheduler, clock", "holders (probe tasks)"},
